@@ -715,7 +715,7 @@ class Gen:
         """avoid: predicate on cell keys (see cell_key) the generator must not produce (cells with a listed finding
         are swept by the exhaustive leg, where they are reported under their canonical key)"""
         self.avoid = avoid
-        self.scalar_only = scalar_only   # only Zahl/Kommazahl/Byte/Wahrheitswert, no Text/lists/functions/counting loops
+        self.scalar_only = scalar_only   # only scalar variables; loops: all five forms, for-each only over list/Text literals; no functions
         if scalar_only:
             lists = funcs = False
         self.r = rng
@@ -850,6 +850,8 @@ class Gen:
             add(2, lambda d: self.guarded(sc, d))
             add(1, lambda d: ["un", "Not", E("W", d)])
             eqt = SCALARS + (LISTS if self.lists else [])
+            if self.scalar_only:
+                eqt = ["Z", "K", "B", "W"]
             if not self.floats:
                 eqt = [x for x in eqt if "K" not in x]
             add(3, lambda d: (lambda ty: ["bin", r.choice(["Eq", "Ne"]), E(ty, d), E(ty, d)])(r.choice(eqt)))
@@ -1019,7 +1021,7 @@ class Gen:
             el = self.stmts(sc.child(), r.randint(1, 2), d - 1, in_loop, fret) if r.random() < 0.6 else []
             return [["if", self.expr("W", sc, 2), th, el]]
         if x < 0.80:
-            return self.while_loop(sc, d, fret) if self.scalar_only else self.for_loop(sc, d, fret)
+            return self.for_loop(sc, d, fret)
         if x < 0.85:
             return self.while_loop(sc, d, fret)
         if x < 0.90:
@@ -1028,7 +1030,7 @@ class Gen:
             cnt = I(r.choice([0, 1, 2, 3])) if r.random() < 0.8 else ["bin", "Mod", ["un", "Abs", self.expr("Z", sc, 1)], I(4)]
             return [["repeat", cnt, body]]
         if x < 0.95:
-            return self.while_loop(sc, d, fret) if self.scalar_only else self.foreach_loop(sc, d, fret)
+            return self.foreach_loop(sc, d, fret)
         if in_loop and x < 0.98:
             self.note("break/continue")
             return [["if", self.expr("W", sc, 1), [["break" if in_loop == "break-only" else r.choice(["break", "continue"])]], []]]
@@ -1092,7 +1094,15 @@ class Gen:
 
     def foreach_loop(self, sc, d, fret):
         r = self.r
-        if self.lists and r.random() < 0.6:
+        if self.scalar_only:
+            # the stage-4 fragment: for-each over a list literal of scalars or over a Text literal
+            if r.random() < 0.6:
+                et = r.choice(["Z", "Z", "B", "W"] + (["K"] if self.floats else []))
+                src = ["list", [self.expr(et, sc, 1) for _ in range(r.randint(1, 3))]]
+            else:
+                et = "C"
+                src = Tx(r.choice(["", "a", "ab", "xyz", "\u00e4\u20ac", "A b", "0\n1"]))
+        elif self.lists and r.random() < 0.6:
             et = r.choice([q for q in SCALARS if self.floats or q != "K"])
             src = self.expr("L" + et, sc, 1)
         else:
@@ -1102,6 +1112,8 @@ class Gen:
         idx = self.fresh() if r.random() < 0.4 else None
         inner = sc.child()
         inner.vars[name] = et
+        if self.scalar_only and et == "C":
+            self.protected.add(name)   # no Buchstabe expressions in the scalar fragment's generator
         if idx:
             inner.vars[idx] = "Z"
         self.note("foreach")
